@@ -189,6 +189,17 @@ def gen(chk):
             if fn(d, rng) is not None:
                 k += 1
         cases.append({"doc": d, "origin": "%d offenders of the rule '%s' (%s)" % (k, rule, fn.__name__), "repeats": 8})
+    # operations whose rejected examples share one message and add others: the set of warnings must not depend on the order
+    # in which the operations are visited (message texts name the response code only, so they coincide across operations)
+    for i in range(6 if chk.tier == "quick" else 40):
+        paths = {}
+        extras = [{}, {"enum": ["x"]}, {"pattern": "^z+$"}, {"minLength": 7}, {"enum": ["y", "z"]}, {"format": "date"}]
+        rng.shuffle(extras)
+        for k in range(rng.randint(2, 5)):
+            sch = dict({"type": "string", "maxLength": 1, "example": "abc"}, **extras[k])
+            paths["/p%d" % k] = {rng.choice(["get", "put", "post"]): {"operationId": "op%d" % k, "responses": {"200": {"description": "ok", "schema": sch}}}}
+        doc = {"swagger": "2.0", "info": {"title": "t", "version": "1"}, "paths": paths}
+        cases.append({"doc": doc, "origin": "operations whose rejected examples share one warning text and add others", "repeats": 8})
     # one offender of every rule, validated through the package-level defaults as well (global switch false, true, false)
     for i in range(len(G.BREAKING) * (2 if chk.tier == "quick" else 8)):
         rule, fn, _ = G.BREAKING[i % len(G.BREAKING)]
